@@ -149,3 +149,47 @@ End Msg.
 
 Lemma get_content_new d l r : get_content (new_udp_packet d l r) = Some d.
 Proof. unfold get_content. cbn. apply b64_roundtrip. Qed.
+
+(** * the printed address identifies an IPv4 user *)
+
+Definition udp_undec (l : bytes) : Z := fold_left (fun acc b => acc * 10 + (Z_of_byte b - 48)) l 0.
+
+Lemma udp_digit_val d : 0 <= d < 10 -> Z_of_byte (udp_digit d) = 48 + d.
+Proof. intros H. unfold udp_digit. rewrite Z_of_byte_of_Z. lia. Qed.
+
+Lemma udp_undec_dec z : 0 <= z <= 65535 -> udp_undec (udp_dec z) = z.
+Proof.
+  intros H. unfold udp_dec. destruct (Z.ltb_spec z 0); [lia|].
+  cbn [udp_dec_pos].
+  repeat (first [ lia
+                | match goal with |- context [if ?c <? 10 then _ else _] =>
+                    destruct (Z.ltb_spec c 10) end ]);
+    unfold udp_undec; cbn [fold_left]; rewrite ?udp_digit_val by lia; lia.
+Qed.
+
+Lemma udp_dec_inj z z' : 0 <= z <= 65535 -> 0 <= z' <= 65535 -> udp_dec z = udp_dec z' -> z = z'.
+Proof. intros H H' E. rewrite <- (udp_undec_dec z H), <- (udp_undec_dec z' H'). now rewrite E. Qed.
+
+Lemma split_at_colon (a a' x x' : bytes) :
+  bytes_has ":"%byte a = false -> bytes_has ":"%byte a' = false ->
+  a ++ ":"%byte :: x = a' ++ ":"%byte :: x' -> a = a' /\ x = x'.
+Proof.
+  revert a'. induction a as [|c a IH]; intros [|c' a']; cbn [app bytes_has]; intros Ha Ha' E.
+  - inversion E. auto.
+  - inversion E; subst. rewrite byte_eqb_refl in Ha'. discriminate.
+  - inversion E; subst. rewrite byte_eqb_refl in Ha. discriminate.
+  - inversion E; subst. apply orb_false_iff in Ha, Ha'. destruct (IH a') as [-> ->]; tauto.
+Qed.
+
+(* IPv4 form: no ':' in the IP text, no zone, port in range *)
+Definition uaddr_v4 (a : uaddr) : Prop :=
+  bytes_has ":"%byte (ua_ip a) = false /\ ua_zone a = [] /\ 0 <= ua_port a <= 65535.
+
+Theorem uaddr_string_inj_v4 a b :
+  uaddr_v4 a -> uaddr_v4 b -> uaddr_string (Some a) = uaddr_string (Some b) -> a = b.
+Proof.
+  destruct a as [ip port zone], b as [ip' port' zone']. unfold uaddr_v4. cbn [ua_ip ua_port ua_zone].
+  intros (Hc & -> & Hp) (Hc' & -> & Hp'). cbn [uaddr_string ua_ip ua_port ua_zone]. rewrite Hc, Hc'.
+  intros E. apply split_at_colon in E; try assumption. destruct E as [-> E].
+  apply udp_dec_inj in E; try assumption. now subst.
+Qed.
